@@ -123,9 +123,11 @@ fn file_operation(letter: u8) {
 }
 #[kani::proof]
 #[kani::unwind(12)]
+#[kani::stub(core::str::validations::run_utf8_validation, crate::verif_support::refs::ascii_utf8_validation)]
 fn c03_sqpk_file_operation_add() { file_operation(b'A'); }
 #[kani::proof]
 #[kani::unwind(12)]
+#[kani::stub(core::str::validations::run_utf8_validation, crate::verif_support::refs::ascii_utf8_validation)]
 fn c03_sqpk_file_operation_delete() { file_operation(b'D'); }
 
 /// chunk framing: big-endian size, 4-byte tag, body, trailing CRC (none after EOF_)
